@@ -91,12 +91,19 @@ fn observer(s: u32, a: usize, _b: usize) {
 }
 
 // includes the first and the last real-time signal of this platform (34 and 64 with glibc): the ends of every table indexed by signal number
-const VALID: [c_int; 8] = [libc::SIGUSR1, libc::SIGUSR2, libc::SIGHUP, libc::SIGWINCH, libc::SIGALRM, libc::SIGURG, 64, 34];
+const VALID_ALL: [c_int; 8] = [libc::SIGUSR1, libc::SIGUSR2, libc::SIGHUP, libc::SIGWINCH, libc::SIGALRM, libc::SIGURG, 64, 34];
+
+/// ... those of them that this environment lets a program handle (valgrind keeps the highest real-time signal for itself)
+fn valid() -> Vec<c_int> {
+    // probed once (in the parent, before anything is registered); forked children inherit the answer
+    static V: std::sync::OnceLock<Vec<c_int>> = std::sync::OnceLock::new();
+    V.get_or_init(|| VALID_ALL.iter().cloned().filter(|s| crate::sig::settable(*s)).collect()).clone()
+}
 
 fn gen_script(rng: &mut Rng, reject: c_int) -> Vec<Step> {
     let mut sc = Vec::new();
     let n0 = rng.range(1, 3) as usize;
-    let mut init: Vec<c_int> = (0..n0).map(|_| *rng.pick(&VALID)).collect();
+    let mut init: Vec<c_int> = (0..n0).map(|_| *rng.pick(&valid())).collect();
     // sometimes the constructor itself gets the rejected number (failing constructor)
     let ctor_fails = rng.chance(1, 5);
     if ctor_fails {
@@ -105,10 +112,10 @@ fn gen_script(rng: &mut Rng, reject: c_int) -> Vec<Step> {
     }
     sc.push(Step::New(init.clone()));
     if ctor_fails {
-        for s in VALID.iter().take(3) {
+        for s in valid().iter().take(3) {
             sc.push(Step::Deliver(*s));
         }
-        sc.push(Step::New(vec![*rng.pick(&VALID)]));
+        sc.push(Step::New(vec![*rng.pick(&valid())]));
     }
     let len = rng.range(6, 12);
     let mut placed = false;
@@ -118,7 +125,7 @@ fn gen_script(rng: &mut Rng, reject: c_int) -> Vec<Step> {
             placed = true;
             if rng.chance(1, 3) { Step::AddViaHandle(0, reject) } else { Step::Add(reject) }
         } else if r < 20 {
-            Step::Add(*rng.pick(&VALID))
+            Step::Add(*rng.pick(&valid()))
         } else if r < 28 {
             Step::Add(reject) // repeat the rejected one
         } else if r < 36 {
@@ -128,16 +135,16 @@ fn gen_script(rng: &mut Rng, reject: c_int) -> Vec<Step> {
         } else if r < 47 {
             Step::DropInstance
         } else if r < 75 {
-            Step::Deliver(*rng.pick(&VALID))
+            Step::Deliver(*rng.pick(&valid()))
         } else if r < 82 {
-            Step::AddViaHandle(rng.below(3) as usize, *rng.pick(&VALID))
+            Step::AddViaHandle(rng.below(3) as usize, *rng.pick(&valid()))
         } else {
             Step::Pending
         };
         sc.push(st);
     }
     // always finish with: deliver all, pending, re-add of a watched signal, deliver, drop all, deliver all
-    for s in VALID.iter() {
+    for s in valid().iter() {
         sc.push(Step::Deliver(*s));
     }
     sc.push(Step::Pending);
@@ -167,7 +174,7 @@ where
 {
     // witnesses: the library owns every signal used, and a registration the instance did not make
     let mut flags = Vec::new();
-    for s in VALID.iter() {
+    for s in valid().iter() {
         let f = Arc::new(AtomicBool::new(false));
         signal_hook::flag::register(*s, f.clone()).expect("witness flag");
         flags.push((*s, f));
@@ -449,6 +456,7 @@ fn concurrent_adds(rounds: u64, seed: u64, fd: i32) -> i32 {
 }
 
 pub fn main(args: &[String]) -> i32 {
+    let _ = valid();
     let seed = arg_u64(args, "--seed", 1);
     let n = arg_u64(args, "--scripts", 300);
     let full = crate::has_flag(args, "--all-numbers");
